@@ -783,10 +783,19 @@ func (f Function) lambdaPrint(ps *ast.PrintState, out *strings.Builder) string {
 	} else {
 		out.WriteString("=>")
 	}
-	needBraces := len(f.Body.Statements) != 1 ||
-		f.Body.Statements[0].Value().Type() == token.LBRACE ||
-		f.Body.Statements[0].Value().Type() == token.LAMBDA ||
-		!lambdaBodyOk(f.Body.Statements[0])
+	stmts := f.Body.Statements
+	if ps.Compact { // comments aren't printed in compact mode: what decides is what is left.
+		stmts = nil
+		for _, st := range f.Body.Statements {
+			if _, isComment := st.(*ast.Comment); !isComment {
+				stmts = append(stmts, st)
+			}
+		}
+	}
+	needBraces := len(stmts) != 1 ||
+		stmts[0].Value().Type() == token.LBRACE ||
+		stmts[0].Value().Type() == token.LAMBDA ||
+		!lambdaBodyOk(stmts[0])
 	if needBraces {
 		out.WriteString("{")
 	}
